@@ -261,12 +261,59 @@ func EdgeFacts(b *ssa.BasicBlock) []Cond {
 		if t == f {
 			continue
 		}
-		tOK := len(t.Preds) == 1 && (t == b || t.Dominates(b))
-		fOK := len(f.Preds) == 1 && (f == b || f.Dominates(b))
+		tOK := edgeDominates(d, t, b)
+		fOK := edgeDominates(d, f, b)
 		if tOK && !fOK {
 			out = append(out, Cond{iff.Cond, true, iff})
 		} else if fOK && !tOK {
 			out = append(out, Cond{iff.Cond, false, iff})
+		}
+	}
+	return out
+}
+
+// edgeDominates: every path from the entry to b traverses the edge d→s: s dominates b and
+// every predecessor of s other than d is itself dominated by s (a back edge of a loop headed by s).
+func edgeDominates(d, s, b *ssa.BasicBlock) bool {
+	if !(s == b || s.Dominates(b)) {
+		return false
+	}
+	nd := 0
+	for _, p := range s.Preds {
+		if p == d {
+			nd++
+			continue
+		}
+		if !(p == s || s.Dominates(p)) {
+			return false
+		}
+	}
+	return nd == 1
+}
+
+// RetVals returns the values returned by ret, looking through the result spill
+// that go/ssa introduces in functions with defers (*t0 = v; rundefers; t = *t0; return t).
+func RetVals(ret *ssa.Return) []ssa.Value {
+	out := make([]ssa.Value, len(ret.Results))
+	for i, r := range ret.Results {
+		out[i] = r
+		u, ok := r.(*ssa.UnOp)
+		if !ok || u.Op != token.MUL {
+			continue
+		}
+		a, ok := u.X.(*ssa.Alloc)
+		if !ok {
+			continue
+		}
+		// last store to a in this block before the return
+		var last ssa.Value
+		for _, ins := range ret.Block().Instrs {
+			if st, ok := ins.(*ssa.Store); ok && st.Addr == a {
+				last = st.Val
+			}
+		}
+		if last != nil {
+			out[i] = last
 		}
 	}
 	return out
@@ -322,6 +369,41 @@ func Reaches(a, b ssa.Instruction) bool {
 		x := stack[len(stack)-1]
 		stack = stack[:len(stack)-1]
 		if seen[x] {
+			continue
+		}
+		seen[x] = true
+		if x == b.Block() {
+			return true
+		}
+		stack = append(stack, x.Succs...)
+	}
+	return false
+}
+
+// ReachesAvoiding reports whether there is a CFG path from just after a to b that does not enter block avoid
+// (a path that re-enters avoid re-executes whatever check lives there).
+func ReachesAvoiding(a, b ssa.Instruction, avoid *ssa.BasicBlock) bool {
+	if a.Block() == b.Block() {
+		ai, bi := -1, -1
+		for k, i := range a.Block().Instrs {
+			if i == a {
+				ai = k
+			}
+			if i == b {
+				bi = k
+			}
+		}
+		if ai < bi {
+			return true
+		}
+	}
+	seen := map[*ssa.BasicBlock]bool{}
+	var stack []*ssa.BasicBlock
+	stack = append(stack, a.Block().Succs...)
+	for len(stack) > 0 {
+		x := stack[len(stack)-1]
+		stack = stack[:len(stack)-1]
+		if seen[x] || x == avoid {
 			continue
 		}
 		seen[x] = true
